@@ -459,7 +459,8 @@ function genPlain(rng, ctx, depth) {
       const used = new Set()
       const attrs = []
       for (let i = rng.int(3); i > 0; i--) {
-        const a = genAttr(rng, ctx, 'plain', used)
+        // slot values, and the common families a slot node carries itself (dataset, marks)
+        const a = genAttr(rng, ctx, rng.pick(['plain', 'plain', 'data:', 'data-', 'mark']), used)
         if (a && !/^(bind|catch|on|capture)/.test(a.name)) attrs.push(a)
       }
       return { t: 'slot', name: rng.bool(0.5) ? null : genValue(rng, ctx, 1), attrs }
